@@ -288,3 +288,10 @@ def no_state_outside(O):
 def readings_stored_as_returned(O):
     from . import C13
     C13.answer_passed_unchanged(dri.WithRep(O, rep()))
+
+
+@obligation("C04/glue-stores-nothing", desc="next / handle_io store nothing themselves - neither into the iterator nor into the "
+            "driver's answer (no loop over the answer that rewrites values) - and call nothing but get_row / handle_io / "
+            "into_data_row resp. the driver, set_outputs and extract_output_values")
+def glue_stores_nothing(O):
+    dri.glue_keeps_state(O, rep())
